@@ -11,6 +11,13 @@ Lemma gen_py_types :
   = (["int"; "float"], ["int"], ["int"], ["int"], ["int"; "float"], ["int"]).
 Proof. reflexivity. Qed.
 
+(* booleans are excluded where the source decides what a numeric constant / an integer key is *)
+Lemma gen_py_excluded : (py_numeric_excluded, def_numeric_excluded, def_int_key_excluded) = (["bool"], ["bool"], ["bool"]).
+Proof. reflexivity. Qed.
+
+Lemma excl_fact b : excl b py_numeric_excluded = ["bool"] /\ excl b def_numeric_excluded = ["bool"] /\ excl b def_int_key_excluded = ["bool"].
+Proof. destruct b; repeat split; reflexivity. Qed.
+
 Lemma gen_py_bounds :
   (py_range_lo, py_range_lo_cmp, py_range_hi_cmp, py_enumerate_lo, py_enumerate_lo_cmp, py_enumerate_hi_cmp)
   = (0%Z, CLe, CLe, 0%Z, CLe, CLe).
@@ -195,23 +202,15 @@ Proof.
 Qed.
 
 (* ------------------------------------------------------------------ TypeScript: value of a literal *)
-Definition ts_lit_plain (q : mquirks) (l : lit) : bool :=
-  match l with
-  | LInt r gs _ sfx => ts_int_guard (q_ts_hex_e_float q) r gs && (negb (q_ts_bigint_dropped q) || String.eqb sfx "")
-  | _ => true
-  end.
-
 Lemma ts_lit_extract q l raw :
-  lit_ok MTs l = true -> ts_lit_plain q l = true -> lit_raw l = Some raw ->
+  lit_ok MTs l = true -> lit_raw l = Some raw ->
   ts_extract (q_ts_hex_e_float q) (q_ts_bigint_dropped q) (lit_chars l) = Some raw.
 Proof.
-  intros Hok Hp Hr. destruct l as [r gs up sfx | ip fp ex sfx | b | s | s]; try discriminate.
+  intros Hok Hr. destruct l as [r gs up sfx | ip fp ex sfx | b | s | s]; try discriminate.
   - cbn [lit_raw] in Hr. inversion Hr. subst raw.
-    destruct (lit_ok_int _ _ _ _ _ Hok) as [Hg Hz]. cbn [ts_lit_plain] in Hp. apply andb_prop in Hp. destruct Hp as [Hq Hb].
+    destruct (lit_ok_int _ _ _ _ _ Hok) as [Hg Hz].
     apply ts_extract_int; try assumption.
-    cbn [lit_ok] in Hok. apply andb_prop in Hok. destruct Hok as [_ Hs].
-    unfold ts_sfx_ok. apply orb_true_iff in Hs. destruct Hs as [Hs|Hs]; [rewrite Hs; reflexivity|].
-    apply orb_true_iff in Hb. destruct Hb as [Hb|Hb]; [rewrite Hb, Hs; apply orb_true_r | rewrite Hb; reflexivity].
+    cbn [lit_ok] in Hok. apply andb_prop in Hok. destruct Hok as [_ Hs]. exact Hs.
   - cbn [lit_raw] in Hr. inversion Hr. subst raw.
     destruct (lit_ok_float _ _ _ _ _ Hok) as [Hi [Hn [Hf [He Hs]]]].
     assert (E : sfx = "").
@@ -220,9 +219,6 @@ Proof.
 Qed.
 
 (* ------------------------------------------------------------------ Rust: value of a literal *)
-Definition rs_lit_plain (q : mquirks) (l : lit) : bool :=
-  match l with LInt r gs up _ => rs_int_guard (q_rs_hex_suffix_clash q) r up gs | _ => true end.
-
 Lemma suffix_in_split sfx table : String.eqb sfx "" || suffix_in sfx table = true -> exists us s, sfx_split sfx table = Some (us, s).
 Proof.
   intros H. unfold sfx_split. destruct (String.eqb sfx ""); [eauto|]. cbn [orb] in H.
@@ -241,22 +237,22 @@ Proof.
 Qed.
 
 Lemma rs_lit_extract q l raw :
-  lit_ok MRs l = true -> rs_lit_plain q l = true -> lit_raw l = Some raw ->
+  lit_ok MRs l = true -> lit_raw l = Some raw ->
   rs_extract (q_rs_hex_suffix_clash q) (rs_node_type l) (lit_chars l) = Some raw.
 Proof.
-  intros Hok Hp Hr. destruct l as [r gs up sfx | ip fp ex sfx | b | s | s]; try discriminate.
+  intros Hok Hr. rewrite rs_extract_code. destruct l as [r gs up sfx | ip fp ex sfx | b | s | s]; try discriminate.
   - cbn [lit_raw] in Hr. inversion Hr. subst raw.
-    destruct (lit_ok_int _ _ _ _ _ Hok) as [Hg Hz]. cbn [rs_lit_plain] in Hp.
+    destruct (lit_ok_int _ _ _ _ _ Hok) as [Hg Hz].
     cbn [lit_ok] in Hok. apply andb_prop in Hok. destruct Hok as [_ Hs].
     assert (S : exists us s, sfx_split sfx (rs_int_sfx_table r) = Some (us, s)).
     { apply suffix_in_split. destruct r; cbn [rs_int_sfx_table]; [rewrite suffix_in_app|..];
         destruct (String.eqb sfx ""), (suffix_in sfx int_suffixes); cbn in *; try reflexivity; try exact Hs; try discriminate. }
-    destruct S as [us [s S]]. cbn [rs_node_type]. apply (rs_extract_int _ r up gs sfx us s); assumption.
+    destruct S as [us [s S]]. cbn [rs_node_type]. apply (rs_extract_int r up gs sfx us s); assumption.
   - cbn [lit_raw] in Hr. inversion Hr. subst raw.
     destruct (lit_ok_float _ _ _ _ _ Hok) as [Hi [Hn [Hf [He _]]]].
     cbn [lit_ok] in Hok. apply andb_prop in Hok. destruct Hok as [_ Hs].
     destruct (suffix_in_split sfx float_suffixes Hs) as [us [s S]].
-    cbn [rs_node_type]. apply (rs_extract_float _ ip fp ex sfx us s); assumption.
+    cbn [rs_node_type]. apply (rs_extract_float ip fp ex sfx us s); assumption.
 Qed.
 
 (* ------------------------------------------------------------------ flat_map *)
